@@ -1,10 +1,16 @@
 import Verif.Drv.ExitCode
 import Verif.Drv.Engine
+import Verif.Drv.Config
+import Verif.Drv.Lines
+import Verif.Drv.FileScan
 
 /-- model name → request handler (one request line in, one answer line out). -/
 def models : List (String × (String → String)) :=
   [("exit", Verif.Drv.ExitCode.step),
-   ("engine", Verif.Drv.Engine.step)]
+   ("engine", Verif.Drv.Engine.step),
+   ("config", Verif.Drv.Config.step),
+   ("lines", Verif.Drv.Lines.step),
+   ("filescan", Verif.Drv.FileScan.step)]
 
 partial def loop (h : IO.FS.Stream) (out : IO.FS.Stream) (f : String → String) : IO Unit := do
   let line ← h.getLine
